@@ -16,12 +16,16 @@ interface Node { id: ID! }
 interface Named { name: String }
 enum Role { ADMIN USER }
 type Profile { bio: String tags: [String!] matrix: [[Int!]] }
-type User implements Node & Named { id: ID! name: String role: Role profile: Profile friends: [User!] best: User score: Float }
+scalar DateTime
+interface Labeled { label: String  stamp: DateTime }
+type Doc implements Labeled { label: String! stamp: DateTime! pages: Int! }
+type Pic implements Labeled { label: String stamp: DateTime }
+type User implements Node & Named { id: ID! name: String role: Role profile: Profile friends: [User!] best: User score: Float created: DateTime! seen: DateTime stamps: [DateTime!] }
 type Bot implements Node { id: ID! model: String! }
 type Ghost implements Node { id: ID! }
 union Actor = User | Bot
 union Solo = Bot
-type Query { me: User node: Node nodes: [Node!]! actor: Actor actors: [Actor] solo: Solo opt: User }
+type Query { me: User node: Node nodes: [Node!]! actor: Actor actors: [Actor] solo: Solo opt: User labeled: Labeled labels: [Labeled!] }
 """
 OPS = {
     "scalars_enums_nesting": "query Q { me { id name role score profile { bio tags matrix } friends { id } best { name } } }",
@@ -34,11 +38,19 @@ OPS = {
     "single_member_union": "query Q { solo { ... on Bot { model } } }",
     "named_fragments": "fragment UB on User { id name } fragment NB on Node { id ... on User { role } } query Q { me { ...UB } node { ...NB } }",
     "conditional_fields": "query Q($c: Boolean!) { me { id name @include(if: $c) best @skip(if: $c) { id } } }",
+    "custom_scalar_direct": "query Q { me { id created seen stamps } }",
+    "custom_scalar_in_fragment_class": "fragment Times on User { created seen stamps } query Q { me { id ...Times } opt { ...Times } }",
+    "covariant_interface_field": "query Q { labeled { label stamp ... on Doc { pages } } labels { label ... on Doc { stamp } } }",
+    "covariant_interface_field_via_fragments": "fragment D on Doc { pages } query Q { labeled { label stamp ...D } labels { ...D label } }",
+    "repeated_field_under_aliases": "query Q { me { name displayName: name first: friends { id } second: friends { name } } }",
+    "skip_with_literal_conditions": "query Q { me { id name @skip(if: true) score @include(if: false) role @include(if: true) seen @skip(if: false) } }",
 }
 KNOWN_OPS = {
     "inline_fragment_on_other_interface": "query Q { node { id ... on Named { name } } }",
     "directive_on_fragment_spread": "fragment UB on User { name } query Q($c: Boolean!) { me { id ...UB @include(if: $c) } }",
     "class_name_collision": "query Q { me { best { friends { id } } } meBest: me { friends { name } } }",
+    "fields_before_conditional_inline_fragment": "query Q($c: Boolean!) { me { id created ... on User @include(if: $c) { name } } }",
+    "fields_before_conditional_inline_fragment_on_interface": "query Q($c: Boolean!) { node { id ... on User @skip(if: $c) { name } } }",
 }
 
 
@@ -46,7 +58,7 @@ def _variants(schema, op_text):
     """conformant responses: graphql-core execute with resolvers enumerating the choices"""
     doc = G.parse(op_text)
     results = []
-    choice_sets = [dict(runtime=r, null=n, length=l, flag=f) for r in ("User", "Bot", "Ghost") for n in (-1, 0, 1, 2) for l in (0, 1, 2) for f in (True, False)]
+    choice_sets = [dict(runtime=r, null=n, length=l, flag=f) for r in ("User", "Bot", "Ghost", "Doc", "Pic") for n in (-1, 0, 1, 2) for l in (0, 1, 2) for f in (True, False)]
     for ch in choice_sets:
         def make(tname, depth=0):
             return {"__t": tname, "depth": depth}
@@ -79,7 +91,7 @@ def _value(rt, fname, ch, depth, schema):
         n = ch["length"] if depth < 2 else min(ch["length"], 1)
         return [_value(rt.of_type, fname, ch, depth, schema) for _ in range(n)]
     if isinstance(rt, G.GraphQLScalarType):
-        return {"ID": "7", "String": "s", "Int": 3, "Float": 1.5, "Boolean": True}[rt.name]
+        return {"ID": "7", "String": "s", "Int": 3, "Float": 1.5, "Boolean": True, "DateTime": "2020-01-02T03:04:05"}[rt.name]
     if isinstance(rt, G.GraphQLEnumType):
         return "ADMIN"
     if depth > 3:
@@ -200,25 +212,49 @@ def _apply(data, kind, path):
 
 
 def _type_at(schema, op_text, path):
-    """schema type of a response position (None for __typename / unknown)"""
+    """schema type of a response position and its field node (None for __typename / unknown / ambiguous positions).
+    Fragment spreads and inline fragments are followed; a position reached under a fragment that carries a directive gets
+    a field node with that directive (conditional); a response key that different type conditions resolve to different
+    types (covariant implementations) is only reported when all candidates agree."""
     doc = G.parse(op_text)
-    info = G.TypeInfo(schema)
+    frags = {d.name.value: d for d in doc.definitions if isinstance(d, G.FragmentDefinitionNode)}
+    op = next(d for d in doc.definitions if isinstance(d, G.OperationDefinitionNode))
     found = {}
 
-    class V_(G.Visitor):
-        def __init__(self):
-            super().__init__()
-            self.keys = []
+    def named(t):
+        while isinstance(t, (G.GraphQLNonNull, G.GraphQLList)):
+            t = t.of_type
+        return t
 
-        def enter_field(self, node, *_):
-            self.keys.append(node.alias.value if node.alias else node.name.value)
-            found[tuple(self.keys)] = (info.get_type(), node)
-
-        def leave_field(self, node, *_):
-            self.keys.pop()
-    G.visit(doc, G.TypeInfoVisitor(info, V_()))
+    def collect(sel_set, parent, prefix, conditional):
+        for sel in sel_set.selections:
+            cond = conditional or any(d.name.value in ("skip", "include") for d in sel.directives or ())
+            if isinstance(sel, G.FieldNode):
+                if sel.name.value == "__typename" or not hasattr(parent, "fields") or sel.name.value not in parent.fields:
+                    continue
+                key = prefix + (sel.alias.value if sel.alias else sel.name.value,)
+                ftype = parent.fields[sel.name.value].type
+                node = sel if not (conditional and not sel.directives) else G.FieldNode(
+                    name=sel.name, alias=sel.alias, arguments=sel.arguments, selection_set=sel.selection_set,
+                    directives=(G.DirectiveNode(name=G.NameNode(value="include"), arguments=()),))
+                found.setdefault(key, []).append((ftype, node))
+                if sel.selection_set is not None:
+                    collect(sel.selection_set, named(ftype), key, cond)
+            elif isinstance(sel, G.InlineFragmentNode):
+                t = schema.type_map[sel.type_condition.name.value] if sel.type_condition else parent
+                collect(sel.selection_set, t, prefix, cond)
+            elif isinstance(sel, G.FragmentSpreadNode) and sel.name.value in frags:
+                f = frags[sel.name.value]
+                collect(f.selection_set, schema.type_map[f.type_condition.name.value], prefix, cond)
+    collect(op.selection_set, schema.query_type, (), False)
     keys = tuple(p for p in path if isinstance(p, str))
-    return found.get(keys, (None, None))
+    cands = found.get(keys)
+    if not cands:
+        return None, None
+    if any(str(t) != str(cands[0][0]) for t, _ in cands[1:]):
+        return None, None
+    conditional = [n for _, n in cands if any(d.name.value in ("skip", "include") for d in n.directives or ())]
+    return cands[0][0], (conditional[0] if conditional else cands[0][1])
 
 
 def check_operation(name, text, snake=True, with_corruptions=True):
@@ -226,7 +262,7 @@ def check_operation(name, text, snake=True, with_corruptions=True):
     g = None
     try:
         schema = G.build_schema(SCHEMA)
-        g = generate_client(SCHEMA, text, convert_to_snake_case=snake)
+        g = generate_client(SCHEMA, text, convert_to_snake_case=snake, scalars={"DateTime": {"type": "str"}})
         sent_text = None
         import re
         src = g.read("client.py")
@@ -338,8 +374,16 @@ def bounded_results(tier, seed):
                 cases=total, failed=len(fails), failures=fails)
 
 
+# the clause each known operation fails with on the recorded tree: a different failure of the same operation is a new violation
+KNOWN_FAILS = {"inline_fragment_on_other_interface": ["generation"], "directive_on_fragment_spread": ["conformant-response-accepted"],
+               "class_name_collision": ["conformant-response-accepted"],
+               "fields_before_conditional_inline_fragment": ["conformant-response-accepted"],
+               "fields_before_conditional_inline_fragment_on_interface": ["conformant-response-accepted"]}
+
+
 def is_known_case(rep):
-    return rep.get("inputs", {}).get("scenario") in KNOWN_OPS
+    name = rep.get("inputs", {}).get("scenario")
+    return name in KNOWN_OPS and rep.get("failed") == KNOWN_FAILS.get(name)
 
 
 def witness(name):
